@@ -163,4 +163,98 @@ func init() {
 				"pool.GetTimer: a new timer, or a pooled one after `timer.Reset(t)` and nothing else (its channel is not looked at)")
 		}
 	})
+	// the queries the two workers run on: Context.CopyTo gives a copy a query message of its own (dns.Msg.Copy is a deep
+	// copy: the OPT record ecs_handler / forward_edns0opt edit through QOpt() is not shared), and doFallback hands each
+	// worker such a copy and nothing else
+	factFuncs = append(factFuncs, func(ex *factExtractor) {
+		const crel = "pkg/query_context/context.go"
+		ct := ex.fn(crel, "Context", "CopyTo")
+		cp := ex.fn(crel, "Context", "Copy")
+		if ct == nil || cp == nil {
+			ex.setBool("c20CopyToQueryDeep", false, false, "Context.CopyTo / Copy not found")
+		} else {
+			nAssign, deep := 0, false
+			ast.Inspect(ct.Body, func(n ast.Node) bool {
+				if s, ok := n.(*ast.AssignStmt); ok {
+					for _, l := range s.Lhs {
+						if ex.str(l) == "d.query" || strings.HasPrefix(ex.str(l), "d.query.") {
+							nAssign++
+						}
+					}
+					if ex.str(s) == "d.query = ctx.query.Copy()" {
+						deep = true
+					}
+				}
+				return true
+			})
+			okCopy := ex.str(cp.Body) == "{ newCtx := new(Context) ctx.CopyTo(newCtx) return newCtx }" && !strings.Contains(ex.str(ct.Body), "*d = *ctx")
+			// `query` must be the *dns.Msg whose Copy is miekg/dns's
+			okField := false
+			if f := ex.file(crel); f != nil {
+				ast.Inspect(f, func(n ast.Node) bool {
+					if ts, ok := n.(*ast.TypeSpec); ok && ts.Name.Name == "Context" {
+						if st, ok := ts.Type.(*ast.StructType); ok {
+							for _, fl := range st.Fields.List {
+								for _, nm := range fl.Names {
+									if nm.Name == "query" && ex.str(fl.Type) == "*dns.Msg" {
+										okField = true
+									}
+								}
+							}
+						}
+					}
+					return true
+				})
+			}
+			ex.setBool("c20CopyToQueryDeep", deep && nAssign == 1 && okCopy && okField, true,
+				"Context.CopyTo: the only write to d.query is `d.query = ctx.query.Copy()` (query is a *dns.Msg: dns.Msg.Copy, a deep copy with records of its own); Copy() is new(Context) + CopyTo")
+		}
+		f := ex.fn("plugin/executable/sequence/fallback/fallback.go", "fallback", "doFallback")
+		if f == nil {
+			ex.setBool("c20WorkersRunOnCopies", false, false, "doFallback not found")
+			return
+		}
+		// per goroutine literal: the statements before the worker's Exec call
+		var lits []*ast.FuncLit
+		ast.Inspect(f.Body, func(n ast.Node) bool {
+			if g, ok := n.(*ast.GoStmt); ok {
+				if fl, ok := g.Call.Fun.(*ast.FuncLit); ok {
+					lits = append(lits, fl)
+				}
+			}
+			return true
+		})
+		worker := func(fl *ast.FuncLit, copyVar, exec string) bool {
+			ss := stmtStrings(ex, fl.Body)
+			iCopy, iExec, nShadow := -1, -1, 0
+			for i, s := range ss {
+				if strings.HasPrefix(s, "qCtx := ") || strings.HasPrefix(s, "qCtx = ") {
+					nShadow++
+					if s == "qCtx := "+copyVar && iCopy < 0 {
+						iCopy = i
+					}
+				}
+				if s == exec && iExec < 0 {
+					iExec = i
+				}
+			}
+			return nShadow == 1 && iCopy >= 0 && iExec > iCopy
+		}
+		uses := func(name string) int {
+			n := 0
+			ast.Inspect(f.Body, func(x ast.Node) bool {
+				if id, ok := x.(*ast.Ident); ok && id.Name == name {
+					n++
+				}
+				return true
+			})
+			return n
+		}
+		top := stmtStrings(ex, f.Body)
+		ok := len(lits) == 2 && contains(top, "qCtxP := qCtx.Copy()") && contains(top, "qCtxS := qCtx.Copy()") &&
+			uses("qCtxP") == 2 && uses("qCtxS") == 2 &&
+			worker(lits[0], "qCtxP", "err := f.primary.Exec(ctx, qCtx)") && worker(lits[1], "qCtxS", "err := f.secondary.Exec(ctx, qCtx)")
+		ex.setBool("c20WorkersRunOnCopies", ok, true,
+			"doFallback: `qCtxP := qCtx.Copy()` / `qCtxS := qCtx.Copy()`, each used once: the worker goroutine's `qCtx := qCtxP` (`qCtxS`) before its `f.primary.Exec(ctx, qCtx)` (`f.secondary.Exec`)")
+	})
 }
